@@ -7,6 +7,8 @@ from harness.core import Case
 from harness import clientlib as cl
 from harness.callreg import invocations
 
+WIDE = 200000        # thorough tier: histories of the wide correspondence stream (widegen.py), judged by the model and the generic rule
+WIDE_QUICK = 2000
 PROP = 'C08'
 EXHAUSTIVE = True
 RULE = ('8 switch settings x every modelled entry point x 12 reply kinds (positive, 3 negatives, truncations of the positive '
